@@ -310,3 +310,60 @@ Proof.
            destruct (find_aos D F c' c Hin Hok) as [g [Fd Hg2]].
            rewrite Fd. exists g. split; [reflexivity|exact Hg2].
 Qed.
+
+(* an attribute step in front of '//' selects nothing *)
+Lemma attr_before_desc_unreachable : forall D sp st st2 r' n c, wf_doc D = true ->
+  s_attr st = true -> reach D ((sp, st) :: (SDesc, st2) :: r') n c -> False.
+Proof.
+  intros D sp st st2 r' n c W At H. cbn [reach] in H.
+  destruct H as [[p [Hp Hin]] [c2 [_ [p2 [Hp2 Hanc]]]]].
+  unfold spec_step in Hin. apply apply_preds_sub in Hin. rewrite At in Hin.
+  apply filter_In in Hin. destruct Hin as [Hin _]. apply in_attributes in Hin.
+  destruct Hin as [_ Hattr].
+  destruct (aos_container D c p2 W Hanc) as [E|E].
+  - subst. destruct (wf_parent_container D c2 p2 W Hp2) as [Hc _].
+    apply container_not_attr in Hc. congruence.
+  - apply container_not_attr in E. congruence.
+Qed.
+
+(* soundness needs no guard: whatever the matcher finds is a chain of the expression semantics *)
+Lemma chain_sound : forall D steps, wf_doc D = true -> wf_steps steps -> steps <> [] -> forall n g,
+  step_pattern D (compile_steps steps) n = (Some g, true) -> reach D steps n g.
+Proof.
+  intros D steps W. induction steps as [|[sp st] r IH]; intros Wf Hne n g H; [congruence|].
+  destruct r as [|[sp2 st2] r'].
+  - apply (chain_child D [(sp, st)] W Wf Hne eq_refl n g). exact H.
+  - inversion_clear Wf as [|? ? Wst Wr]. cbn [snd] in Wst.
+    specialize (IH Wr ltac:(discriminate) n).
+    rewrite compile_steps_cons in H.
+    destruct (compile_head_user sp2 st2 r') as [m2 [rest [Em2 Um2]]].
+    rewrite Em2 in *.
+    rewrite step_pattern_cons2, (user_not_anyfn m2 Um2) in H.
+    destruct (step_pattern D (m2 :: rest) n) as [[c2|] [|]] eqn:R; try discriminate.
+    destruct (parent D c2) as [c'|] eqn:Hp; [|discriminate].
+    pose proof (IH c2 eq_refl) as R2.
+    assert (Plain : forall at', at' = s_attr st ->
+              step_ok D at' (s_test st) (s_preds st) c' = true -> g = c' ->
+              reach D ((sp, st) :: (sp2, st2) :: r') n g).
+    { intros at' Eat S Eg. subst at' g. cbn [reach]. split; [apply (step_ok_spec D st c' W Wst); exact S|].
+      exists c2. split; [exact R2|]. exists c'. split; [exact Hp|].
+      destruct sp2; [reflexivity|apply aos_self]. }
+    destruct (s_attr st) eqn:At.
+    + cbn [body] in H. destruct (step_ok D true (s_test st) (s_preds st) c') eqn:S; [|discriminate].
+      inversion H. apply (Plain true); auto.
+    + destruct sp2; cbn [next_is_desc] in H.
+      * cbn [body] in H. destruct (step_ok D false (s_test st) (s_preds st) c') eqn:S; [|discriminate].
+        inversion H. apply (Plain false); auto.
+      * cbn [body] in H.
+        destruct (is_attr (kind_of D c')) eqn:Ac; [discriminate|].
+        match type of H with context [find ?F _] => set (F0 := F) in * end.
+        destruct (find F0 (aos D c')) as [a|] eqn:Fd; [|discriminate].
+        inversion H. subst a. apply find_some in Fd. destruct Fd as [Hin Fg].
+        assert (Hna : is_attr (kind_of D g) = false).
+        { destruct (aos_container D g c' W Hin) as [E|E]; [subst; exact Ac|].
+          apply container_not_attr. exact E. }
+        assert (S : step_ok D (s_attr st) (s_test st) (s_preds st) g = true).
+        { unfold step_ok. rewrite At, Hna. exact Fg. }
+        cbn [reach]. split; [apply (step_ok_spec D st g W Wst); exact S|].
+        exists c2. split; [exact R2|]. exists c'. split; [exact Hp|exact Hin].
+Qed.
